@@ -502,6 +502,9 @@ package base
 //@   ensures[C08] t != nil && targetT != nil && old(targetT.tType == UNION && exists(i, 0 <= i && i < len(t.variants) && t.variants[i].tType == UNTYPED)) ==> result
 //@   # against a definite type a union matches only through a variant that is untyped or has that type tag
 //@   ensures[C07] t != nil && targetT != nil && targetT.tType != UNION && result ==> exists(i, 0 <= i && i < len(t.variants) && (t.variants[i].tType == UNTYPED || t.variants[i].tType == targetT.tType))
+//@   # C08: a definite-typed argument is accepted by a union parameter that has a variant of that type tag
+//@   ensures[C08] t != nil && targetT != nil && old(targetT.tType != UNION && exists(i, 0 <= i && i < len(t.variants) && t.variants[i].tType == targetT.tType)) ==> result
+//@   loop 2 invariant[C08] forall(j, 0 <= j && j <= rangeindex ==> t.variants[j].tType != targetT.tType)
 
 //@ # ---- C20: a class counts as defined only through an entry of exactly one of the frames asked for ----
 //@ # (the frames of the reference, their Builtin:: counterparts, and Builtin itself): a class that the
